@@ -468,6 +468,8 @@ class Matcher:
         while True:
             d = self.fn.defn(o)
             if d is not None and not d.is_param and d.op in ops:
+                if d.op == "trunc" and not self._trunc_transparent(d):
+                    return o            # a narrowing to 8 or 16 bits of something not known to fit: a value of its own
                 o = d.ops[0]
                 continue
             if d is not None and not d.is_param and d.op == "phi" and len(d.incoming) == 1 and d.incoming[0][0] != ("v", d.id):
@@ -477,6 +479,19 @@ class Matcher:
                 o = o[1].ops[0]
                 continue
             return o
+
+    def _trunc_transparent(self, d):
+        """pattern matching reads through a truncation unless it narrows to 8 or 16 bits something that may not fit.  (Narrowings to 32 bits
+        are read through: the code stores size_t quantities in unsigned int fields in a dozen places the rules must see through; rules whose
+        verdict depends on a 64 -> 32 narrowing ask min_width_through_casts.)"""
+        from .lin import maxbits
+        tw = self.mod.int_bits(d.ty) or 64
+        if tw == 1 or tw >= 32:
+            return True
+        src = self.fn.defn(d.ops[0])
+        # re-narrowing of a value that was widened from at most that width (uint8_t promoted to int and stored back) fits by construction
+        k = maxbits(self.fn, d.ops[0])
+        return k is not None and k <= tw
 
     def _trunc_keeps(self, d):
         """the truncation cannot change the value: the operand is known to fit the narrow type, or is widened again to at most ... no: only a
